@@ -28,21 +28,28 @@ fn line<T: FftNum>(kind: Kind, n: usize, dir: FftDirection) -> String {
 }
 
 pub fn run(args: &[String]) {
+    use rayon::prelude::*;
     let kind = Kind::parse(&args[0]);
-    let ty = args[1].as_str();
+    let ty = args[1].to_string();
     let lo: usize = args[2].parse().unwrap();
     let hi: usize = args[3].parse().unwrap();
+    let seed = seed_from_env() ^ 0x33;
+    let lines: Vec<String> = (lo..hi)
+        .into_par_iter()
+        .map(|n| {
+            // directions alternate pseudo-randomly; the advertised lengths must not depend on them
+            let dir = if Rng::new(seed ^ n as u64).below(2) == 0 { FftDirection::Forward } else { FftDirection::Inverse };
+            let s = match ty.as_str() {
+                "f32" => line::<f32>(kind, n, dir),
+                "f64" => line::<f64>(kind, n, dir),
+                _ => panic!("bad type"),
+            };
+            format!("spec {} {} {}\t{}", kind.name(), ty, n, s)
+        })
+        .collect();
     let stdout = std::io::stdout();
     let mut out = std::io::BufWriter::new(stdout.lock());
-    let mut rng = Rng::new(seed_from_env() ^ 0x33);
-    for n in lo..hi {
-        // alternate directions pseudo-randomly; the advertised lengths must not depend on it
-        let dir = if rng.below(2) == 0 { FftDirection::Forward } else { FftDirection::Inverse };
-        let s = match ty {
-            "f32" => line::<f32>(kind, n, dir),
-            "f64" => line::<f64>(kind, n, dir),
-            _ => panic!("bad type"),
-        };
-        writeln!(out, "spec {} {} {}\t{}", kind.name(), ty, n, s).unwrap();
+    for l in lines {
+        writeln!(out, "{}", l).unwrap();
     }
 }
